@@ -697,32 +697,50 @@ class TypeSpace(object):
     def shape(self, s, i):
         return self.en_.g(s, i)
 
-    def plan(self, budget):
-        """-> (list of (size, index), complete_sizes, partial (size, taken, card) or None)"""
+    def levels(self, budget):
+        """-> ([(size, taken, card)], complete_sizes, partial (size, taken, card) or None): complete size levels while
+        they fit into the budget, then `taken` evenly spaced indices of the first level that does not fit"""
         out = []
         complete = -1
         left = budget
+        done = 0
         for s, n in enumerate(self.cards):
-            if len(out) >= self.total:
+            if done >= self.total:
                 break
             if n == 0:
                 complete = s
                 continue
             if n <= left:
-                out.extend((s, i) for i in range(n))
+                out.append((s, n, n))
                 left -= n
+                done += n
                 complete = s
                 continue
             if left > 0:
-                # evenly spaced, both ends included; deterministic and seed independent
-                if left == 1:
-                    idx = [0]
-                else:
-                    idx = sorted(set((j * (n - 1)) // (left - 1) for j in range(left)))
-                out.extend((s, i) for i in idx)
-                return out, complete, (s, len(idx), n)
+                out.append((s, left, n))
+                return out, complete, (s, left, n)
             return out, complete, (s, 0, n)
         return out, complete, None
+
+    @staticmethod
+    def nth(levels, o):
+        """the o-th planned shape -> (size, index within the size level); evenly spaced with both ends included
+        where a level is only partly taken (deterministic, independent of the seed)"""
+        for s, taken, card in levels:
+            if o < taken:
+                if taken == card:
+                    return s, o
+                if taken == 1:
+                    return s, 0
+                return s, (o * (card - 1)) // (taken - 1)
+            o -= taken
+        raise IndexError("shape ordinal out of range")
+
+    def plan(self, budget):
+        """-> (list of (size, index), complete_sizes, partial)"""
+        levels, complete, partial = self.levels(budget)
+        n = sum(t for _, t, _ in levels)
+        return [self.nth(levels, o) for o in range(n)], complete, partial
 
 
 # ----------------------------------------------------------------------------- filling leaves by rotation
